@@ -187,6 +187,10 @@ class Session:
         if wit is not None:
             e["wit"] = wit
         self.ev.append(e)
+        full = project(g)
+        if "bad" not in full and full != before:
+            # scratch data was left on the argument (allowed): the session's copy is refreshed, the molecule is the same
+            self.ev.append({"op": "touch", "obj": k, "g": full})
         return s
 
     def prov_graph(self, k):
@@ -310,7 +314,15 @@ class Session:
             lines[1] = ""                           # the timestamp is the one thing that may differ between calls
         xyz6 = [[six_decimals(g.nodes[a].get(c, 0)) for c in ("x_coord", "y_coord", "z_coord")] for a in g.nodes]
         bonds = [[min(a, b), max(a, b), d.get("bond_type", 1)] for a, b, d in g.edges(data=True)]
-        self.ev.append({"op": "write", "arg": k, "lines": lines, "xyz6": xyz6, "bonds": bonds})
+        six = {}
+        for l in "\n".join(lines).replace("-\nM  V30 ", "").split("\n"):     # continued lines joined (the format's rule)
+            for t in l.split():
+                if t not in six:
+                    try:
+                        six[t] = six_decimals_of_literal(t)
+                    except Exception:
+                        pass
+        self.ev.append({"op": "write", "arg": k, "lines": lines, "xyz6": xyz6, "six": six, "bonds": bonds})
         return lines
 
     def result(self, key, val, clause):
@@ -324,6 +336,16 @@ def six_decimals(v):
         ctx.prec = 2000
         d = decimal.Decimal(float(v)).quantize(decimal.Decimal("0.000001"), rounding=decimal.ROUND_HALF_EVEN)
         return format(d, "f")
+
+
+def six_decimals_of_literal(t):
+    import decimal
+    with decimal.localcontext() as ctx:
+        ctx.prec = 2000
+        d = decimal.Decimal(t)
+        if not d.is_finite():
+            raise ValueError(t)
+        return format(d.quantize(decimal.Decimal("0.000001"), rounding=decimal.ROUND_HALF_EVEN), "f")
 
 
 # ---------------------------------------------------------------- witnesses (proposed here, checked by TLC)
